@@ -3,7 +3,8 @@ import A2lVerif.Driver.Lex
 /-! line-protocol front end for the `/include` splice model:
     `inc <main file name> <hexpath>=<hexcontent>,<hexpath>=<hexcontent>,…` (paths relative to the directory of the
     main file; the first entry is the main file).
-    Answer: `ok kind:fileid:<hex of token text> …` | `err <first three words of the message joined by _>` | `PANIC` | `HANG`. -/
+    Answer: `ok kind:fileid:<hex of token text> …` | `err <first three words of the message joined by _>` | `PANIC` | `HANG`
+    (`HANG` cannot be printed: the include recursion is bounded by `MAX_INCLUDE_DEPTH`, the lexer does not hang). -/
 namespace A2l.Inc
 
 def fsOfList (files : List (Path × Lex.Bytes)) : FS := fun p => (files.find? (·.1 == p)).map (·.2)
@@ -55,7 +56,7 @@ def handle (args : List String) : String :=
       match fl with
       | [] => "bad-request"
       | (_, content) :: _ =>
-        showRes (tokenize (fsOfList fl) 64 { full := mainPath, display := mainPath } 0 content)
+        showRes (tokenizeTop (fsOfList fl) { full := mainPath, display := mainPath } 0 content)
   | _ => "bad-request"
 
 end A2l.Inc
